@@ -49,6 +49,8 @@ def serve(arg):
                     ev["mass"] = dec.enc(at.mass)
                     ev["mass_unc"] = dec.enc(at._mass_unc)
                     ev["abundance"] = dec.enc(at.abundance) if a else {"k": "none"}
+                    if a:
+                        ev["abundance_unc"] = dec.enc(at._abundance_unc)
                     if not variant & 1:
                         ev["density"] = dec.enc(at.density)
                     ev["number_density"] = dec.enc(at.number_density)
